@@ -617,6 +617,20 @@ class Engine(ExprMixin, CallMixin):
                 outs.append((kind, s3, pl))
         return outs
 
+    def value_equal(self, a, b):
+        """exact equality of two symbolic values: identity for references/None, term equality for data"""
+        a, b = lift(a), lift(b)
+        if isinstance(a, (VObj, VNoneT, VOpaque)) or isinstance(b, (VObj, VNoneT, VOpaque)):
+            return same(a, b)
+        if isinstance(a, (VTuple, VList)) and isinstance(b, (VTuple, VList)):
+            if len(a.items) != len(b.items):
+                return VBool(False)
+            return And(*[self.value_equal(x, y) for x, y in zip(a.items, b.items)])
+        if isinstance(a, VFunc) or isinstance(b, VFunc):
+            return VBool(a is b)
+        r = a == b
+        return r if isinstance(r, VBool) else VBool(bool(r))
+
     # ------------------------------------------------------------ verifying one function
     def number_loops(self, fnode):
         self.loop_ordinals = {}
@@ -634,8 +648,18 @@ class Engine(ExprMixin, CallMixin):
         visit(fnode)
         return k
 
-    def verify_fn(self, key, variant_tag=None):
+    def verify_fn(self, key):
         c = self.reg.fns[key]
+        if c.cases:
+            res = []
+            for name, setup in c.cases:
+                res.extend(self.verify_case(key, name, setup))
+            return res
+        return self.verify_case(key, None, c.setup)
+
+    def verify_case(self, key, case, setup):
+        c = self.reg.fns[key]
+        tagc = f"[{case}]" if case else ''
         fnode = self.src.find(key)
         if fnode is None:
             raise Refuse(f"function {key} not found in the repository (renamed or removed)")
@@ -661,8 +685,8 @@ class Engine(ExprMixin, CallMixin):
         for nm, sort in c.params.items():
             if nm not in st.env:       # closure variables / extra symbolic inputs
                 st.env[nm] = fresh(sort, hint=nm)
-        if c.setup:
-            c.setup(self, st)
+        if setup:
+            setup(self, st)
         for nm, v in st.env.items():
             if isinstance(v, (VInt, VReal, VBool, VStr)):
                 self.entry_syms[nm] = v.t
@@ -674,7 +698,7 @@ class Engine(ExprMixin, CallMixin):
         for h in c.pre_hints:
             st.assume(h(ns))
         # vacuity: the precondition must be satisfiable
-        self.oblige(f"{key}#vacuity.requires-satisfiable", State(), VBool(z3.Not(z3.And(*st.pc)) if st.pc else False), kind='vacuity-neg')
+        self.oblige(f"{key}{tagc}#vacuity.requires-satisfiable", State(), VBool(z3.Not(z3.And(*st.pc)) if st.pc else False), kind='vacuity-neg')
         self.cur_decreases = c.decreases(ns) if c.decreases else None
         if self.cur_decreases is not None and not isinstance(self.cur_decreases, (tuple, list)):
             self.cur_decreases = (self.cur_decreases,)
@@ -697,10 +721,20 @@ class Engine(ExprMixin, CallMixin):
                 for h in c.post_hints:
                     s.assume(h(nse, ret))
                 for idx, en in enumerate(c.ensures):
-                    self.oblige(f"{key}#post{idx}", s, en(nse, ret), kind='post')
+                    self.oblige(f"{key}{tagc}#post{idx}", s, en(nse, ret), kind='post')
+                if c.sets:
+                    for obj, fld, val in c.sets(nse, ret):
+                        cur = s.heap.get(obj.oid, {}).get(fld)
+                        goal = VBool(False) if cur is None else self.value_equal(cur, val)
+                        self.oblige(f"{key}{tagc}#post.sets[{fld}]", s, goal, kind='post')
             elif kind == 'raise':
                 for idx, en in enumerate(c.ensures_exc):
-                    self.oblige(f"{key}#post_exc{idx}", s, en(nse, pl), kind='post-exc')
+                    self.oblige(f"{key}{tagc}#post_exc{idx}", s, en(nse, pl), kind='post-exc')
+                if c.sets_exc:
+                    for obj, fld, val in c.sets_exc(nse, pl):
+                        cur = s.heap.get(obj.oid, {}).get(fld)
+                        goal = VBool(False) if cur is None else self.value_equal(cur, val)
+                        self.oblige(f"{key}{tagc}#post_exc.sets[{fld}]", s, goal, kind='post-exc')
                 if c.raises is not None and pl.cls != '<any>' and not any(self.src.is_subclass(pl.cls, r) for r in c.raises):
                     self.oblige(f"{key}#raises-only-declared[{pl.cls}]", s, VBool(False), kind='raises')
                 elif c.raises is not None and pl.cls == '<any>' and c.raises != ['<any>']:
@@ -708,9 +742,10 @@ class Engine(ExprMixin, CallMixin):
             else:
                 raise Refuse(f"{kind} escapes {key}")
             self.paths[key] += 1
-        self.verified[key] = dict(sha=self.src.sha(fnode), paths=self.paths[key], normal_exits=nret,
+        prev = self.verified.get(key, {})
+        self.verified[key] = dict(sha=self.src.sha(fnode), paths=self.paths[key], normal_exits=nret + prev.get('normal_exits', 0),
                                   lineno=fnode.lineno)
         if nret == 0 and c.ensures:
             # cover: at least one path must reach a normal return, otherwise the ensures are vacuous
-            self.oblige(f"{key}#vacuity.some-normal-exit", State(), VBool(False), kind='vacuity-cover')
+            self.oblige(f"{key}{tagc}#vacuity.some-normal-exit", State(), VBool(False), kind='vacuity-cover')
         return res
